@@ -18,6 +18,7 @@ func checkC13(c *Ctx) {
 	c.Rule("C13.1", "tempo first: the tempo meta event built from the recording tempo is added before listening starts", 1)
 	c.Rule("C13.2", "only file-legal messages are stored: the append is taken only for channel messages and complete F0 sysex; never for real-time, system-common, stray or empty messages", 1)
 	c.Rule("C13.3", "delta provenance: delta = Ticks(bpm, (t - prev) ms), prev' = t when stored, prev unchanged when dropped", 1)
+	c.Rule("C13.6", "delta conversion formula: Ticks(bpm, d) = Round(d[ns] * resolution * bpm / 6e10) computed in floating point from the full nanosecond value (no integer narrowing of the duration or of intermediate products)", 1)
 	c.Rule("C13.4", "unchanged, in order: the stored bytes are the callback's message, one append per delivered channel message", 1)
 	c.Rule("C13.5", "close and add: the file-level stop function stops listening, closes the track and adds it to the file", 1)
 
@@ -53,11 +54,18 @@ func checkC13(c *Ctx) {
 				if l, ok := a.(*ssa.UnOp); ok {
 					a = l.X
 				}
-				if prm, ok := a.(*ssa.Parameter); ok && prm.Name() == "bpm" {
+				// the recording tempo: the float64 parameter of RecordFrom (possibly spilled into a cell because the callback captures it)
+				if prm, ok := a.(*ssa.Parameter); ok && prm.Type().String() == "float64" {
 					okTempoArg = true
 				}
-				if al, ok := a.(*ssa.Alloc); ok && al.Comment == "bpm" {
-					okTempoArg = true
+				if al, ok := a.(*ssa.Alloc); ok {
+					for _, u := range liveRefs(al) {
+						if st, ok := u.(*ssa.Store); ok && st.Addr == ssa.Value(al) {
+							if prm, ok := st.Val.(*ssa.Parameter); ok && prm.Type().String() == "float64" {
+								okTempoArg = true
+							}
+						}
+					}
 				}
 			}
 		}
@@ -224,6 +232,7 @@ func checkC13(c *Ctx) {
 	c.Check(badDelta == "", "C13.3", "delta = Ticks(bpm, arrival difference); previous arrival follows stored messages only", p.Pos(cb.Pos()), "affine provenance of the Ticks argument and of the stored previous arrival", badDelta)
 	c.Check(badBytes == "", "C13.4", "stored bytes = delivered message, once", p.Pos(cb.Pos()), "identity of the message segments; one append per channel message", badBytes)
 
+	ticksFormulaRule(c, "C13.6")
 	// ---- C13.5
 	srec := p.MethodOf(types.NewPointer(smfT), "RecordFrom")
 	ok5 := false
